@@ -634,6 +634,8 @@ def rule_error_type_name(model):
                   ctx=fi)
     nbind = 0
     for fi in ci.methods.values():
+        if getattr(fi, 'cm_method', False):
+            continue      # a context-manager helper: judged where it is used
         for x in own_nodes(fi.node):
             if not isinstance(x, ast.Call):
                 continue
